@@ -45,6 +45,12 @@ type Pair struct {
 	// end 0 is closed.
 	OnClose0 func()
 
+	// WriteDelay0, if set, is called before every Write of end 0 takes effect;
+	// the call blocks for the returned duration first (a send buffer that is
+	// full for a while). One Write call still takes effect atomically, as on a
+	// real socket whose fd write lock serialises concurrent Write calls.
+	WriteDelay0 func() time.Duration
+
 	// Tap0, if set, observes every successful Write of end 0 (corebgp's side)
 	// at the moment the transport accepts it, under the pair lock: this is
 	// "the wire". Data later discarded by a reset or by the peer's close is
@@ -60,6 +66,13 @@ func NewPair(id int, a0, a1 netip.AddrPort) *Pair {
 	p.addr[0] = net.TCPAddrFromAddrPort(a0)
 	p.addr[1] = net.TCPAddrFromAddrPort(a1)
 	return p
+}
+
+// SetWriteDelay0 installs or removes the write delay (safe while in use).
+func (p *Pair) SetWriteDelay0(f func() time.Duration) {
+	p.mu.Lock()
+	p.WriteDelay0 = f
+	p.mu.Unlock()
 }
 
 // End returns the net.Conn for one end.
@@ -150,6 +163,16 @@ func (c *Conn) Read(b []byte) (int, error) {
 func (c *Conn) Write(b []byte) (int, error) {
 	p := c.p
 	me, peer := c.i, 1-c.i
+	if me == 0 {
+		p.mu.Lock()
+		wd := p.WriteDelay0
+		p.mu.Unlock()
+		if wd != nil {
+			if d := wd(); d > 0 {
+				time.Sleep(d)
+			}
+		}
+	}
 	p.mu.Lock()
 	defer p.mu.Unlock()
 	p.writes[me]++
